@@ -140,7 +140,7 @@ def run(tier, seed, work):
             cases.append((len(cases), b"layer", a, x))
     dnames = [b"with space", b"caf\xc3\xa9", b"\xff\xfe", b"dot.ted", b"-dash"]
     if True:
-        for _ in range(3000 if tier == "quick" else 40000):
+        for _ in range(3000 if tier == "quick" else 200000):
             a = tuple(r.choice(XKINDS) for _ in range(4))
             cases.append((len(cases), r.choice(dnames), a, r.choice(xnames)))
     shards = [(s, work) for s in vp.split(cases, vp.NCPU * 2)]
